@@ -573,6 +573,9 @@ func C14(c *Ctx) {
 			}
 			for _, b := range h.Blocks {
 				if ret, isRet := b.Instrs[len(b.Instrs)-1].(*ssa.Return); isRet && idx < len(ret.Results) && ssau.IsNilConst(ret.Results[idx]) {
+					if c14NilWithError(cl, ret) {
+						continue // no queue comes back together with an error, on which the caller stops working the queue
+					}
 					return true
 				}
 			}
@@ -785,4 +788,68 @@ func C14(c *Ctx) {
 		}
 		c.R.Check(okFan, "C14-R4", "mcrew Process: every emitted message is re-injected by its own goroutine", c.P.Pos(proc.Pos()), "go s.Process(ctx, msg, ctl) unconditionally in the loop over every stride's Emitted", why)
 	}
+}
+
+// c14NilWithError: the return ret of the helper called at cl hands back, as another result, a value that is known not
+// to be nil there (`return nil, nil, err` under err != nil), and the caller, on finding that result not nil, does not
+// come back to the call (it leaves the loop the call is in).
+func c14NilWithError(cl *ssa.Call, ret *ssa.Return) bool {
+	for j, r := range ret.Results {
+		nonNil := false
+		for _, f := range flow.FactsAt(ret.Block()) {
+			bo, ok := f.Cond.(*ssa.BinOp)
+			if !ok || bo.X != r || !ssau.IsNilConst(bo.Y) {
+				continue
+			}
+			if (bo.Op == token.NEQ && f.True) || (bo.Op == token.EQL && !f.True) {
+				nonNil = true
+			}
+		}
+		if !nonNil {
+			continue
+		}
+		var ex *ssa.Extract
+		for _, u := range ssau.Referrers(cl) {
+			if e, ok := u.(*ssa.Extract); ok && e.Index == j {
+				ex = e
+			}
+		}
+		if ex == nil {
+			continue
+		}
+		// the ways on from the call, in this activation, with ex != nil (ex keeps its value until the call is made again)
+		seen := map[*ssa.BasicBlock]bool{}
+		stack := []*ssa.BasicBlock{}
+		next := func(b *ssa.BasicBlock) {
+			succs := b.Succs
+			if iff, ok := b.Instrs[len(b.Instrs)-1].(*ssa.If); ok {
+				if bo, isB := iff.Cond.(*ssa.BinOp); isB && bo.X == ssa.Value(ex) && ssau.IsNilConst(bo.Y) {
+					switch bo.Op {
+					case token.NEQ:
+						succs = b.Succs[:1]
+					case token.EQL:
+						succs = b.Succs[1:2]
+					}
+				}
+			}
+			for _, s := range succs {
+				if !seen[s] {
+					seen[s] = true
+					stack = append(stack, s)
+				}
+			}
+		}
+		next(cl.Block())
+		for len(stack) > 0 {
+			b := stack[len(stack)-1]
+			stack = stack[:len(stack)-1]
+			if b != cl.Block() {
+				next(b)
+			}
+		}
+		if !seen[cl.Block()] {
+			return true
+		}
+	}
+	return false
 }
